@@ -4135,7 +4135,8 @@ fn evaluate_scalar_func(
             if let Some(int_arr) = arr.as_any().downcast_ref::<Int64Array>() {
                 let result: TimestampMicrosecondArray = int_arr
                     .iter()
-                    .map(|opt| opt.map(|secs| secs * 1_000_000))
+                    // seconds that do not fit a microsecond timestamp have no value
+                    .map(|opt| opt.and_then(|secs| secs.checked_mul(1_000_000)))
                     .collect();
                 return Ok(Arc::new(result));
             }
